@@ -67,6 +67,33 @@ RULE = ("one evaluation = one IR module: real ir_to_python once per path, genera
         "semantics, results/memory/trace compared by the solver for all inputs; non-trivial = more than one path")
 
 
+# C programs in addition to corpus/cprogs.py (memory through pointers of every width, negative pointer offsets,
+# pointer comparison loops, string literals, 64-bit arithmetic on the 32-bit target, loop exits that read header phis)
+EXTRA_PROGS = {
+    "x_uchar_buf": ("int f(unsigned char *p, int i) { p[i & 7] = p[(i + 1) & 7] + 200; return p[i & 7] + (signed char)p[8]; }", "f"),
+    "x_short_global": ("short g[4]; unsigned short h[2];\n"
+                       "int f(int i, int v) { g[i & 3] = (short)v; h[i & 1] = (unsigned short)(v >> 3); return g[(i + 1) & 3] + h[0] - h[1]; }", "f"),
+    "x_neg_index": ("int f(int *p, int i) { int *q = p + 2; q[-1] = q[-(i & 1)] + i; return q[-2] - q[-1] + p[1]; }", "f"),
+    "x_ptr_loop": ("int f(int *p, int n) { int *e = p + (n & 3); int s = 0; while (p < e) { s += *p; p++; } return s; }", "f"),
+    "x_ptr_diff": ("int f(int *p, int n) { int *a = p + (n & 3); int *b = p + ((n >> 2) & 3); return (int)(a - b) + (a == b) + (a >= b) * 2; }", "f"),
+    "x_string_lit": ("int f(int i) { const char *s = \"hello\"; return s[i & 3] + s[4]; }", "f"),
+    "x_llong": ("long long f(long long a, long long b, int c) { return a * b + (a >> 3) - (b << 2) + c; }", "f"),
+    "x_ullong_cmp": ("unsigned long long f(unsigned long long a, long long b) { return (a > (unsigned long long)b) + (a >> 63) + (unsigned long long)(b < 0); }", "f"),
+    "x_dowhile_phi": ("int f(int n) { int c = 0; do { if (n & 1) c = c + 3; n = n / 2; } while (n > 0 && c < 6); return c; }", "f"),
+    "x_swap_loop": ("int f(int a, int b, int n) { n = n & 3; while (n > 0) { int t = a; a = b; b = t + 1; n--; } return a * 2 - b; }", "f"),
+    "x_store_widths": ("char c; short s; int i; long long l;\n"
+                       "int f(long long v) { c = (char)v; s = (short)v; i = (int)v; l = v; return c + s; }", "f"),
+    "x_unsigned_divshift": ("unsigned f(unsigned a, unsigned b) { return (a / (b | 1)) + (a % (b | 1)) + (a >> (b & 31)) + (a << (b & 31)); }", "f"),
+}
+
+
+def c_source(prog):
+    if prog in EXTRA_PROGS:
+        return EXTRA_PROGS[prog]
+    src, entry, _ext = cprogs.PROGS[prog]
+    return src, entry
+
+
 # ---------------------------------------------------------------------------------------------------------
 # IR modules of the op families, built with the real ppci.ir API
 def _ty(name):
@@ -170,7 +197,7 @@ def build_module(spec):
         return _phi_template(spec["name"], spec.get("ty", "i32"))
     if kind == "c":
         from ppci.api import c_to_ir, optimize
-        src, entry, _ext = cprogs.PROGS[spec["prog"]]
+        src, entry = c_source(spec["prog"])
         m = c_to_ir(io.StringIO(src), MARCH)
         if spec.get("opt"):
             optimize(m, level=spec["opt"])
@@ -640,7 +667,8 @@ def mk_ir2py(**kw):
 
 
 # ---------------------------------------------------------------------------------------------------------
-LOOPY = ["while_sum", "for_break", "do_while", "nested_loops", "ifelse", "ternary", "logic", "switch", "recursion", "tail_self"]
+LOOPY = ["while_sum", "for_break", "do_while", "nested_loops", "ifelse", "ternary", "logic", "switch", "recursion", "tail_self",
+         "x_ptr_loop", "x_dowhile_phi", "x_swap_loop", "x_neg_index", "x_short_global"]
 ALIAS_QUICK = [("u32", "u8"), ("u8", "u32"), ("i16", "i8"), ("i8", "i16"), ("u64", "i16"), ("i16", "u64"), ("i32", "u16"),
                ("u16", "i32"), ("i64", "i32"), ("i32", "i64"), ("ptr", "u8"), ("u16", "ptr")]
 
@@ -671,7 +699,7 @@ def jobs(tier, seed):
         if tier != "quick":
             specs.append(dict(kind="phi", name=n, ty="u8"))
             specs.append(dict(kind="phi", name=n, ty="i64"))
-    for p in sorted(cprogs.PROGS):
+    for p in sorted(cprogs.PROGS) + sorted(EXTRA_PROGS):
         specs.append(dict(kind="c", prog=p, opt=None))
         if tier != "quick" or p in LOOPY:
             specs.append(dict(kind="c", prog=p, opt="2"))
